@@ -9,7 +9,10 @@ Engine E1 (product-space enumeration).  Alphabet
   isotropic background in {0, 0.1};  N in {24, 36} (thorough: 72, 144);
   **every rotation by k bins and the mirror image** of every case (2N relatives per case);
 * the five 'hard' moment sets of tests/spectrum/estimators/test_mem2.py with all their rotations
-  and mirrors (N = 36; thorough also 72, 144);
+  and mirrors (N = 36, 72; thorough also 144); quick also runs the narrow lobes (1.5, 2, 3 bins) on
+  N = 72 for mem / approximate / newton;
+* call histories: every custom solver_config of a small alphabet x solution method in between two
+  rounds of default calls (thorough: also all ordered pairs of configs);
 * Jacobian: lambda in {-3,-1.5,0,1.5,3}^4 (thorough {-3,..,3}^4), N in {24,36}(,72,144), two grid
   origins, plus the first-guess multipliers of the hard cases in every rotation.
 
@@ -22,12 +25,18 @@ Oracle (reference model: numpy / math / scipy.special only, nothing from the lib
   aliased Fourier coefficients sum_k c_{m+kN} / sum_k c_{kN} with c_n = P1 c_{n-1} + P2 c_{n-2}
   (P from the 2x2 Yule-Walker system, c_n by recursion): |m(D) - aliased| <= 1e-9;
 * equivariance: moments rotated by e^{ik Delta}, e^{2ik Delta} => np.roll(D, k); mirrored
-  moments => D[(-j) mod N].  mem / mem2-approximate: 1e-9 max(D).  mem2 newton / scipy: 1e-6
-  max(D); a larger mismatch is a violation only if the two outputs differ by more than two
-  solver tolerances (0.02) in moment space - both outputs are members of the exponential
-  family exp(-lambda.T), on which the moment map is injective, so two outputs that both meet
-  the solver tolerance may legitimately differ by that much ("solver-tolerance divergence",
-  counted, not reported);
+  moments => D[(-j) mod N].  mem, mem2-approximate and mem2-newton are deterministic arithmetic
+  on the rotated inputs: 1e-9 max(D) (measured worst case on the unchanged tree over the whole
+  thorough alphabet incl. the hard cases: mem 6.5e-12, approximate 5.9e-15, newton 3.2e-11 - narrow
+  lobes at N=144 - so the bound has a 30-fold margin over rounding times conditioning).  mem2-scipy
+  (MINPACK lm with a finite-difference Jacobian, xtol 1.5e-8; measured up to 9.2e-3): 1e-6 max(D),
+  a larger mismatch is a violation only if the two outputs differ by more than two solver
+  tolerances (0.02) in moment space - both outputs are members of the exponential family
+  exp(-lambda.T), on which the moment map is injective ("solver-tolerance divergence", counted);
+* history: [default calls] ; [calls with a custom solver_config through the public keyword path
+  estimate_directional_distribution(..., solver_config=...)] ; [the same default calls] => results
+  bit-identical, newton still within 0.01, module defaults (mem2.NUMERICS) untouched.  Run in a
+  fresh interpreter so that a changed module state can neither leak into nor come from other units;
 * Jacobian: mem2_jacobian == central differences of moment_constraints (h=1e-6, tol 1e-6),
   == covariance matrix of (cos t, sin t, cos 2t, sin 2t) under D (1e-10), exactly symmetric;
   moment_constraints == m - E_D[T] (1e-10).
@@ -49,7 +58,8 @@ RULE = (
     "full Cartesian product: von-Mises mixture lattice (lobe width x mean direction x second lobe (weight, separation) "
     "x background) x N x all 2N relatives (N rotations x {identity, mirror}) x variant {mem, mem2/approximate, "
     "mem2/newton, mem2/scipy}; the 5 shipped hard cases x all 2N relatives x variant; Jacobian: lambda lattice^4 x N x "
-    "2 grid origins plus first-guess multipliers of the hard cases in every rotation. A mixture case is non-trivial "
+    "2 grid origins plus first-guess multipliers of the hard cases in every rotation; call histories [default ; custom "
+    "solver_config call(s) ; default] over a 5-config x 2-method alphabet in a fresh interpreter. A mixture case is non-trivial "
     "when its moments are anisotropic (|c1|+|c2| > 1e-6) so that the estimator output is not the uniform "
     "distribution; distinct = distinct (mixture or hard case, N, relative). A Jacobian point is non-trivial when "
     "lambda != 0; distinct = distinct (lambda, N, grid origin)."
@@ -59,7 +69,9 @@ ASSUMPTIONS = [
     "uniform ascending direction grids starting at 0 for the estimators (as as_frequency_direction_spectrum builds)",
     "moment reproduction is demanded only for realisable moments (mixtures; hard cases 0-3); hard case 4 is outside "
     "the realisable set (|c2-c1^2| > 1-|c1|^2), no distribution has its moments, only equivariance is checked for it",
-    "mem2 newton/scipy equivariance beyond 1e-6 is judged in moment space against twice the solver tolerance",
+    "mem2/scipy equivariance beyond 1e-6 is judged in moment space against twice the solver tolerance; mem, "
+    "mem2/approximate and mem2/newton must be equivariant to 1e-9 max(D)",
+    "history family: solver_config alphabet of 5 dicts x {newton, scipy}; histories of length 1 (thorough: and 2)",
 ]
 REQUIRED_CATEGORIES = [
     "unimodal", "bimodal", "background", "width_1.5bin", "sub_bin_mean_direction",
